@@ -54,7 +54,7 @@ const (
 
 // verifShape is the generated shape of an ActionResult.
 type verifShape struct {
-	outputFiles int  // 0..2
+	outputFiles int // 0..2
 	stdout      bool
 	stderr      bool
 	directory   bool // one output directory
@@ -493,4 +493,41 @@ func verifB2U(b bool) uint64 {
 		return 1
 	}
 	return 0
+}
+
+// Verif_C13_Y1_TreeBudgetAcrossDirectories: the configured maximum applies to the
+// COMBINED size of all Trees of the ActionResult: with k output directories
+// (each carrying the same Tree of s bytes) and everything present, the result is
+// returned iff k*s does not exceed the budget, for budgets around every multiple.
+func Verif_C13_Y1_TreeBudgetAcrossDirectories() {
+	s := verifShape{outputFiles: 1, directory: true, rootDigest: vnd.Choose(2) == 1, treeKind: 1, malSlot: -1}
+	w := verifBuildWorld(s)
+	tree := w.objects[verifSlotTree]
+	size := int64(len(tree.Data))
+	k := 1 + vnd.Choose(3)
+	od := w.result.OutputDirectories[0]
+	w.result.OutputDirectories = nil
+	for i := 0; i < k; i++ {
+		w.result.OutputDirectories = append(w.result.OutputDirectories, &remoteexecution.OutputDirectory{
+			Path: []string{"d0", "d1", "d2"}[i], TreeDigest: od.TreeDigest, RootDirectoryDigest: od.RootDirectoryDigest,
+		})
+	}
+	cas := &verifFlakyCAS{Model: verifstub.NewReliableModel("cas", w.objects), failAt: -1}
+	for i := range cas.Present {
+		cas.Present[i] = true
+	}
+	ac := &verifActionCache{result: w.result}
+	// budgets: one byte below / exactly at each multiple of the Tree size up to k
+	m := 1 + vnd.Choose(k)
+	maxTree := int64(m)*size - int64(vnd.Choose(2))
+	out := verifRunGet(w, cas, ac, 2, maxTree)
+	fits := int64(k)*size <= maxTree
+	if fits {
+		vnd.Cover("within-budget")
+		vnd.Assert(out.returned, "complete ActionResult withheld although the combined Tree size is within the budget")
+	} else {
+		vnd.Cover("over-budget")
+		vnd.Assert(!out.returned && out.err != nil, "ActionResult returned although the combined size of its Trees exceeds the configured maximum")
+	}
+	vnd.Observe("budget", uint64(k), uint64(m), verifB2U(out.returned))
 }
